@@ -17,6 +17,8 @@ def Last(x):
 
 def subset(x, y):
     """every configuration of idl x occurs in idl y"""
+    if x is y:
+        return True
     return ForAll(0, Len(x), lambda i: member(At(x, i), y))
 
 
